@@ -255,6 +255,7 @@ def coqchk(pid, timeout=3000):
     # blocks nor is disturbed by a concurrent build
     snap = os.path.join(workdir(), "vo-snapshot")
     shutil.rmtree(snap, ignore_errors=True)
+    os.makedirs(os.path.join(snap, "theories"))
     r = subprocess.run(["flock", "-s", os.path.join(WORKROOT, "make.lock"), "rsync", "-a", "--include=*/", "--include=*.vo",
                         "--exclude=*", os.path.join(COQ, "theories") + "/", os.path.join(snap, "theories") + "/"],
                        capture_output=True, text=True, timeout=600)
